@@ -65,7 +65,7 @@ func (c TraceCall) String() string {
 // Syscall sets.
 const (
 	// every call that touches the store's files, for schedules and traces
-	traceSetAll = "openat,flock,read,pread64,write,pwrite64,writev,fsync,fdatasync,rename,renameat,renameat2,unlink,unlinkat,ftruncate,truncate,link,linkat,symlinkat,mkdirat,close"
+	traceSetAll = "openat,newfstatat,statx,flock,read,pread64,write,pwrite64,writev,fsync,fdatasync,rename,renameat,renameat2,unlink,unlinkat,ftruncate,truncate,link,linkat,symlinkat,mkdirat,close"
 )
 
 // killNames are the calls before which a kill is worth trying: everything that changes
